@@ -198,9 +198,6 @@ def _init(vc, spec, *a, **k):
             note="the filter raises MANEUVER_DETECTION and copies the detector's metric iff the detector returned true, and hands it the current innovation and innovation covariance")
 def flags(vc):
     from resonaate.estimation.sequential_filter import FilterFlag
-    if not vc.symbolic:
-        vc.ensure("O-C17-flags", True)
-        return
     got = {}
     r = vc.bool("detected")
 
